@@ -383,12 +383,7 @@ namespace {
               gen.set_decay_dbd_level(0);
               gen.set_decay_dbd_mode(DBDMODE_1);
             }
-            gen.initialize(prng);
-            event ev;
-            gen.shoot(prng, ev);
-            if (!ev.is_valid()) {
-              use_invalid++;
-            }
+            gen.initialize(prng); // the consumer of the catalogue; generation itself is other properties' business
             gen.reset();
             use_ok++;
           } catch (draw_budget_exceeded &) {
@@ -448,12 +443,7 @@ namespace {
             gen.set_decay_isotope(mode == 20 ? "Zr96" : "Mo100");
             gen.set_decay_dbd_level(level);
             gen.set_decay_dbd_mode(static_cast<dbd_mode_type>(mode));
-            gen.initialize(prng);
-            event ev;
-            gen.shoot(prng, ev);
-            if (!ev.is_valid()) {
-              use_invalid++;
-            }
+            gen.initialize(prng); // the consumer of the catalogue; generation itself is other properties' business
             gen.reset();
             use_ok++;
           } catch (draw_budget_exceeded &) {
